@@ -1,7 +1,7 @@
 """C16 (partial): R-IDX, R-CAP, R-EOF, R-REC, R-DIV, R-WRAP, T-TBL, R-NULL over everything reachable from naken_asm."""
 from nk import report
 from nk.interval import Analyzer
-from rules import wrap, idx, term, div, lane, tbl, null, expr
+from rules import strs, wrap, idx, term, div, lane, tbl, null, expr
 from . import common
 
 EXPLANATION = (
@@ -13,7 +13,7 @@ EXPLANATION = (
     'constant-true loop that reads input has an exit depending on the reader\'s end-of-input value. R-REC: every call-graph '
     'cycle has a depth guard. R-DIV: every divisor is proven non-zero. R-WRAP: page tests are computed in 64 bits. T-TBL: '
     'every opcode table walked to a null mnemonic ends with a null row. POOL-FIT: the largest record a pool-append loop admits fits a fresh pool (else the loop allocates forever). R-NULL: no dereference on a path where the pointer '
-    'was found null. Not decided: time proportional to input, heap exhaustion, unbounded strcpy/strcat chains (R-STR not armed).')
+    'was found null. R-STR: a strcpy/strcat whose destination capacity and worst-case source lengths are known (arrays, literals, table columns, caller buffers; flow-sensitive length of the destination) fits; the others are listed as not decided. WRAP-LOOP: no 32-bit counter is compared with an inclusive bound that can be 0xffffffff. Not decided: time proportional to input, heap exhaustion, string copies whose lengths are not bounded by declarations.')
 
 
 def run(tier, t0):
@@ -28,6 +28,7 @@ def run(tier, t0):
     results = [idx.idx(prog, scope, 150, an), idx.cap_callers(prog, scope, 380, cg), idx.cap_callee(prog),
                term.eof(prog, scope, 50), term.rec(prog, cg, [common.ASM_MAIN]), div.div(prog, scope, 60, ctx=dctx),
                lane.wrap_pages(prog, 2), tbl.ttbl(prog), null.null_a(prog, scope, 20), term.pool_fit(prog, cg), expr.cap_protocol(prog), idx.ptr_into_array(prog, scope, an),
+               strs.strs(prog, cg, scope, 10),
                wrap.wrap_loops(prog, lambda f: f.file.startswith(('fileio/write', 'main/naken_asm', 'core/')), an, 8)]
     return report.finish('C16', tier, results, EXPLANATION,
                          ['the invariants listed for not-decided subscripts were read from the code and replayed under ASan '
